@@ -24,12 +24,15 @@ from __future__ import annotations
 
 import json
 import multiprocessing as mp
+import os
 import random
 import ssl
 import warnings
 
 from . import known, net, tlc
 from .c14 import NONE, cps, text
+
+JOBS = int(os.environ.get("VERIF_JOBS") or os.cpu_count() or 4)   # every pool is sized by this
 
 MC_CFG = """SPECIFICATION Spec
 CONSTANTS Alphabet <- MCAlpha12
@@ -353,7 +356,7 @@ def run(rep):
                        "vh/net.py request parser, TLC and CPython http.client are trusted (http.client is also part of what is observed)"]
     lvl, shs, nrand, per = (1, 8, 1200, 100) if quick else (2, 11, 24000, 750)
     tally, seen_bad = {}, {}
-    with mp.Pool(min(16, tlc.NCPU)) as pool:
+    with mp.Pool(JOBS) as pool:
         rnd_async = pool.map_async(_random_shard, [(rep.seed * 9176 + 31 * i + 7, per) for i in range(nrand // per)])
         outs = pool.map(_shape_shard, [(lvl, sh, shs) for sh in range(shs)], chunksize=1)
         rnd = rnd_async.get()
